@@ -167,7 +167,7 @@ def roundtrip(p, ctx):
             ctx.notes["differs_at"] = d
         check_refs(C, ctx)
         # a paused project that was restored continues like the original (FIFO reads the restored state logs)
-        if stage == "paused" and not ctx.fails and not p.get("configure_sub") and p.get("resim", True):
+        if stage == "paused" and not ctx.fails:
             from pDESy.model.base_priority_rule import TaskPriorityRuleMode
 
             kwr = dict(kw, initialize_state_info=False, initialize_log_info=False, task_priority_rule=TaskPriorityRuleMode.FIFO)
